@@ -88,10 +88,10 @@ impl Vm {
     //@  subst "self .range_cache .iter() .enumerate() .max_by(|first, second| first.1 .1.elapsed().cmp(&second.1 .1.elapsed())) .map(|e| e.0) .expect(\"Expect to find max given non-empty Vec.\")" => "cache_oldest(&self.range_cache)"
     //@  subst "time::Instant::now()" => "instant_now()"
     //@  requires old(self).cache_ok()
-    //@  ensures final(self).cache_ok()
+    //@  ensures! final(self).cache_ok()
     //@  ensures exists|i: int| 0 <= i < final(self).range_cache@.len() && (#[trigger] final(self).range_cache@[i]).0.id() == r.id() && final(self).range_cache@[i].0.obj().begin == begin && final(self).range_cache@[i].0.obj().end == end
-    //@  ensures forall|i: int, j: int| 0 <= i < old(self).range_cache@.len() && 0 <= j < final(self).range_cache@.len() && (#[trigger] old(self).range_cache@[i]).0.id() == (#[trigger] final(self).range_cache@[j]).0.id() ==> old(self).range_cache@[i].0.obj() == final(self).range_cache@[j].0.obj()
-    //@  ensures final(self).range_cache@.len() >= old(self).range_cache@.len()
+    //@  ensures! forall|i: int, j: int| 0 <= i < old(self).range_cache@.len() && 0 <= j < final(self).range_cache@.len() && (#[trigger] old(self).range_cache@[i]).0.id() == (#[trigger] final(self).range_cache@[j]).0.id() ==> old(self).range_cache@[i].0.obj() == final(self).range_cache@[j].0.obj()
+    //@  ensures! final(self).range_cache@.len() >= old(self).range_cache@.len()
     //@  at body.start broadcast use axiom_id_determines_obj;
     //@  after_stmt "self.range_cache[stale_pos] =" proof { assert(self.range_cache@[stale_pos as int].0.id() == range_gc.id()); }
     //@  after_stmt "self.range_cache.push(" proof { assert(self.range_cache@[self.range_cache@.len() - 1].0.id() == range_gc.id()); }
